@@ -164,9 +164,9 @@ impl Clone for TransitionCycle {
                 it.snapshot@@ == sched_vehicles(self),
                 0 <= it.index@ <= it.snapshot@@.len(),
                 tours@.dom() == self.tours@.dom(),
-                forall|j: int| 0 <= j < it.index@ ==> self.aligned(#[trigger] it.snapshot@@[j], tours@[it.snapshot@@[j]]),
-                forall|j: int| it.index@ <= j < it.snapshot@@.len() ==> tours@[#[trigger] it.snapshot@@[j]] == self.tours@[it.snapshot@@[j]],
-                costs == self.costs - pre_costs(self.tours@, it.snapshot@@, it.index@ as int) + pre_costs(tours@, it.snapshot@@, it.index@ as int),
+                forall|j: int| 0 <= j < it.index@ ==> self.aligned(#[trigger] it.snapshot@@[j], tours@[it.snapshot@@[j]]), // @obl C05.reassign.every_visited_vehicle_is_aligned
+                forall|j: int| it.index@ <= j < it.snapshot@@.len() ==> tours@[#[trigger] it.snapshot@@[j]] == self.tours@[it.snapshot@@[j]], // @obl C05.reassign.unvisited_tours_untouched
+                costs == self.costs - pre_costs(self.tours@, it.snapshot@@, it.index@ as int) + pre_costs(tours@, it.snapshot@@, it.index@ as int), // @obl C09.reassign.costs_follow_the_visited_tours
                 costs <= self.costs + it.index@ * leg_cost_bound(),
 //@before "let tour ="
             proof {
